@@ -6,8 +6,18 @@ Implementation-level oracle (model-free), on real subprocess runs of bin/dippy-h
     after / after-mcp rule that matches - recomputed here from single-rule evaluations of the real
     matcher, so the "last wins / empty message silences" logic is checked independently of the loop;
   * any other hook_event_name (missing, other names, wrong types): stdout with the configuration as
-    given == stdout with every after / after-mcp line removed.
-Correspondence: Model/Hook.v main == the real process on the same runs."""
+    given == stdout with every after / after-mcp line removed;
+  * which kind of event this is is read at the host-written level only (harness/hookplace.py): on PostToolUse payloads a key
+    named like any host field (hook_event_name: PreToolUse, permission_mode: bypass..., tool_name, command, cwd, tool_input)
+    anywhere the host does not write it - tool_input, tool_response, other members, near-miss spellings - and on pre-execution
+    payloads a hook_event_name: PostToolUse decoy, leave the output byte-for-byte what it is without the key.
+  * parser.tokenize (what the after rules are matched against) = the words of the first simple command: by construction -
+    first commands assembled from word forms (plain, single / double quoted, empty, quote characters, assignments, non-ASCII)
+    x every list operator x rests x suffixes (`;`, `&`, redirections, comment) x line breaks; [] for text the parser
+    rejects and for blank text.
+Correspondence: Model/Hook.v main == the real process on the same runs; Model/Tokens.v extract_tokens (on the serialised
+parse) == tokenize on all those texts and on compound commands; Tokens.strip_quotes == _strip_quotes on every string over
+{", ', a, space, backslash} up to length 5 (thorough: 6) and a random longer stream."""
 from __future__ import annotations
 
 import dataclasses
@@ -19,12 +29,15 @@ from pathlib import Path
 from . import core, lib
 from . import hookgen as g
 from . import hooklib as H
+from . import hookplace as P
 
 TRUSTED = [
     "Coq 8.16.1 kernel and its VM",
     "axioms: none (every theorem of Props/C19.v prints 'Closed under the global context')",
     "extraction: ExtrOcamlBasic only; OCaml 4.13.1; ocaml/driver.ml; cross-checked in Coq by vm_compute on a sample",
-    "modelled, not verified: tokenize and the per-rule matcher of match_after (alias resolution, path normalisation, fnmatch) are "
+    "Parable's parse() is outside the model: Model/Tokens.v models _extract_tokens / _strip_quotes on the tree parse() returned "
+    "(serialised reflectively by harness/lib.py tree); tokenize's `try/except -> []` is checked on the real function",
+    "modelled, not verified: tokenize (inside Hook.main) and the per-rule matcher of match_after (alias resolution, path normalisation, fnmatch) are "
     "oracles; C19_last states 'last matching rule' relative to that matcher; C19_inert assumes analyze reads only the shell part of the "
     "configuration - the harness checks this on the real code (with / without after rules)",
     "print() of the non-ASCII feedback line is an oracle that may raise (ASCII-only stdout): the hook then prints {}",
@@ -119,6 +132,113 @@ def build_cases(sc, tier, rng):
     return cases
 
 
+# ---------------------------------------------------------------- tokenize: words of the first simple command
+WORD_FORMS = [("git", "git"), ("push", "push"), ("'git'", "git"), ('"push"', "push"), ("'a b'", "a b"), ('"c  d"', "c  d"), ("-f", "-f"),
+              ("--force-with-lease", "--force-with-lease"), ("origin/main", "origin/main"), ("FOO=1", "FOO=1"), ("''", ""), ('"\'"', "'"),
+              ("'\"'", '"'), ("a=b", "a=b"), ("é🐤", "é🐤"), ("$HOME", "$HOME"), ("'$(rm x)'", "$(rm x)"), ("x.y", "x.y")]
+LIST_OPS = [" | ", " |& ", " && ", " || ", " ; ", "; ", " & ", " &\n", " &&\n", " |\n"]
+LINE_OPS = ["\n", "\n\n", " \n ", "\n# c\n"]
+RESTS = ["cat", "git status", "ls -la | wc -l", "zap it && ls", "'x y' z"]
+SUFFIXES = ["", ";", " &", " > /tmp/x", " 2>&1", " # note", " < in >> out"]
+COMPOUNDS = ["(FIRST)", "{ FIRST; }", "! FIRST", "time FIRST", "if FIRST; then ls; fi", "while FIRST; do ls; done", "for x in a; do FIRST; done",
+             "f() { FIRST; }", "[[ -f x ]]", "(( 1 + 1 ))", "case x in x) FIRST;; esac", "coproc FIRST", "until FIRST; do ls; done",
+             "(FIRST) | cat", "{ FIRST; } && ls", "! FIRST | cat", "FIRST | (cat)", "FIRST && { ls; }"]
+BROKEN = ["'", '"', "a |", "a &&", "; a", "(a", "a )", "$(", "if a", "a ;; b", "a | | b", "}", "fi", "a 'b", "&& a", "| a", "a <", "a >"]
+BLANK = ["", " ", "\t", "\n", "  \n  "]
+QUOTE_ALPHABET = ['"', "'", "a", " ", "\\"]
+
+
+def token_cases(tier, rng):
+    """-> list of (command text, expected tokens or None (no model-free expectation), label)."""
+    import itertools
+
+    firsts = []
+    for n in (1, 2, 3):
+        pool = list(itertools.product(WORD_FORMS, repeat=n)) if n == 1 else [tuple(rng.choice(WORD_FORMS) for _ in range(n)) for _ in range(40 if tier == "quick" else 400)]
+        for ws in pool:
+            firsts.append((" ".join(w for w, _ in ws), [t for _, t in ws]))
+    firsts += [("git push", ["git", "push"]), ("git  push   origin", ["git", "push", "origin"]), ("  git push", ["git", "push"])]
+    cases = []
+    for i, (ft, fw) in enumerate(firsts):
+        cases.append((ft, fw, "simple"))
+        ops = LIST_OPS if tier == "thorough" or i < 25 else [LIST_OPS[i % len(LIST_OPS)]]
+        for op in ops:
+            rest = RESTS[(i + len(op)) % len(RESTS)]
+            cases.append((ft + op + rest, fw, "first-of-list:" + op.strip().replace("\n", "NL")))
+        cases.append((ft + SUFFIXES[i % len(SUFFIXES)], fw, "suffix"))
+        lop = LINE_OPS[i % len(LINE_OPS)]
+        cases.append((ft + lop + RESTS[i % len(RESTS)], fw, "lines"))
+        cases.append((COMPOUNDS[i % len(COMPOUNDS)].replace("FIRST", ft), None, "compound"))
+    for ft, fw in firsts[:8]:
+        for c in COMPOUNDS:
+            cases.append((c.replace("FIRST", ft), None, "compound"))
+        for sfx in SUFFIXES:
+            cases.append((ft + sfx, fw, "suffix"))
+        for lop in LINE_OPS:
+            for rest in RESTS:
+                cases.append((ft + lop + rest, fw, "lines"))
+    for b in BROKEN:
+        cases.append((b, [], "unparseable"))
+        cases.append(("git push " + b if not b.startswith((";", "&", "|", "}", "fi")) else b + " git push", None, "unparseable-tail"))
+    for b in BLANK:
+        cases.append((b, [], "blank"))
+    return cases
+
+
+def token_stream(hm, out, tier, rng, only=None):
+    """parser.tokenize: (a) by construction - the generator knows the words of the first simple command; (b) Model/Tokens.v
+    extract_tokens on the serialised parse == tokenize; (c) strip_quotes (model) == _strip_quotes over every string of the
+    quote alphabet up to length 5 / 6."""
+    import itertools
+
+    from dippy.core import parser as ps
+    from dippy.vendor.parable import parse
+
+    cases = [(only, None, "replay")] if only is not None else token_cases(tier, rng)
+    for text, want, label in cases:
+        out.case(["tokens", text])
+        out.count("tokens", label.split(":")[0])
+        got = ps.tokenize(text)
+        if only is not None and "\n" in text:
+            want = ps.tokenize(text.split("\n")[0])
+            label = "lines"
+        if want is not None and got != want:
+            sig = "tokens-span-lines" if "\n" in text and got[:len(want)] == want and len(got) > len(want) else "tokens-not-first-command"
+            out.violations.append({"kind": "tokens", "what": f"tokenize({text!r}) = {got}, the words of the first simple command are {want}"
+                                   + (" (the words of later lines are appended: `A<newline>B` is not read like `A; B`)" if sig == "tokens-span-lines" else ""),
+                                   "command": text, "tokens": got, "expected": want, "signature_text": f"{sig} | {label}"})
+        try:
+            nodes = lib.with_timeout(lambda: parse(text), 10) if hasattr(lib, "with_timeout") else parse(text)
+        except Exception:  # noqa: BLE001 - tokenize answers [] for anything the parser rejects
+            if got != []:
+                out.violations.append({"kind": "tokens", "what": f"tokenize({text!r}) = {got} although the parser rejects the text",
+                                       "command": text, "signature_text": f"tokens-on-parse-failure | {label}"})
+            continue
+        if not text or not text.strip():
+            continue
+        mod = hm.model.call(["hook_tokens", [lib.tree(n) for n in nodes]])
+        if mod != got:
+            out.disagreements.append({"correspondence": "Tokens.extract_tokens <-> parser.tokenize", "input": text, "model": mod, "impl": got})
+    if only is not None:
+        return
+    n = 0
+    for ln in range(0, 6 if tier == "quick" else 7):
+        for tup in itertools.product(QUOTE_ALPHABET, repeat=ln):
+            v = "".join(tup)
+            n += 1
+            a, b = hm.model.call(["hook_strip_quotes", v]), ps._strip_quotes(v)
+            if a != b:
+                out.disagreements.append({"correspondence": "Tokens.strip_quotes <-> parser._strip_quotes", "input": v, "model": a, "impl": b})
+    for _ in range(300 if tier == "quick" else 5000):
+        v = "".join(rng.choice(QUOTE_ALPHABET + ["é", "\n", "x"]) for _ in range(rng.randrange(2, 14)))
+        n += 1
+        a, b = hm.model.call(["hook_strip_quotes", v]), ps._strip_quotes(v)
+        if a != b:
+            out.disagreements.append({"correspondence": "Tokens.strip_quotes <-> parser._strip_quotes", "input": v, "model": a, "impl": b})
+    out.evaluations += n
+    out.extra["strip_quotes_cases"] = n
+
+
 def expected_feedback(sc, c, value):
     """Model-free: the message of the last matching rule, each rule judged alone by the real matcher.
     -> ('msg', text) | ('silent',) | None when the input is not a well-formed shell / MCP PostToolUse."""
@@ -131,20 +251,21 @@ def expected_feedback(sc, c, value):
     cwd = value.get("cwd") or (ti.get("cwd") if isinstance(ti, dict) else None) or sc.proj(c.proj_cfg)
     if not isinstance(cwd, str):
         return None
-    mode = H.expected_mode(c, value)
     tn = value.get("tool_name")
     try:
         cfg = H.real_load_config(sc, c, cwd)
     except Exception:  # noqa: BLE001
         return None
-    if mode != "cursor" and isinstance(tn, str) and tn.startswith("mcp__"):
+    # the SHAPE of the payload says where the command is (C12: a forced mode never does): with a tool_name it is a tool call
+    # (tool_input.command of a shell tool, or an MCP tool), without one it is Cursor's top-level command
+    if "tool_name" in value and isinstance(tn, str) and tn.startswith("mcp__"):
         last = None
         for r in cfg.after_mcp_rules:
             if fnmatch.fnmatch(tn, r.pattern):
                 last = r
         rules_hit = last
     else:
-        if mode == "cursor":
+        if "tool_name" not in value and "command" in value:
             cmd = value.get("command", "")
         elif isinstance(tn, str) and tn in H.SHELL_TOOLS and isinstance(ti, dict):
             cmd = ti.get("command", "")
@@ -172,7 +293,16 @@ def run(tier, seed, replay=None):
     hm = None
     xcheck = []
     try:
-        cases = [H.replay_case(sc, replay)] if replay else build_cases(sc, tier, rng)
+        placed = None
+        if replay and replay.get("kind") == "tokens":
+            hm = H.HookModel(sc)
+            token_stream(hm, out, tier, rng, only=replay["command"])
+            return out
+        if replay and replay.get("twin_case"):
+            placed = P.replay_pair(sc, out, replay, "post")
+            cases = []
+        else:
+            cases = [H.replay_case(sc, replay)] if replay else build_cases(sc, tier, rng)
         # the metamorphic twin of every non-PostToolUse case: same run without after / after-mcp lines
         twins = {}
         for c in cases:
@@ -187,13 +317,27 @@ def run(tier, seed, replay=None):
                 twins[id(c)] = t
         H.run_cases(sc, cases + list(twins.values()))
         hm = H.HookModel(sc)
+        extra = []
+        if placed is not None:
+            extra = [placed]
+        elif not replay:
+            token_stream(hm, out, tier, rng)
+            extra, _ = P.run_placement(sc, out, tier, "post", hm=hm, sample_limit=50, events=("post",), tag="placement_sweep_post")
+            more, _ = P.run_placement(sc, out, tier, "post", hm=hm, sample_limit=30, events=("pre",), fields=("hook_event_name",),
+                                      tag="placement_sweep_pre_event_decoys")
+            extra = extra + more
+        for c in extra:
+            kind, value = H.read_stdin(c)
+            c.is_post = kind == "ok" and isinstance(value, dict) and isinstance(value.get("hook_event_name"), str) \
+                and value.get("hook_event_name") == "PostToolUse"
+        cases = cases + extra
 
         def bad(what, sig, c, **more):
             out.violations.append({"kind": "post", "what": what, **H.describe(c, sc), **more, "signature_text": f"{sig} | {c.label}"})
 
         for idx, c in enumerate(cases):
             out.case(c.key(), nontrivial=bool((c.user_cfg and "after" in c.user_cfg) or (c.proj_cfg and "after" in c.proj_cfg)))
-            out.count("stream", c.label)
+            out.count("stream", "place" if c.label.startswith("place:") else c.label)
             items = H.parse_stdout(c.out)
             kind, value = H.read_stdin(c)
             if idx % 61 == 0:
@@ -262,6 +406,7 @@ def run(tier, seed, replay=None):
         if hm:
             hm.close()
         sc.close()
+    xcheck = xcheck + getattr(out, "xview", [])[:8]
     n, mism = core.coq_crosscheck("C19", xcheck)
     out.extra["coq_vm_crosscheck"] = {"cases": n, "mismatches": len(mism)}
     if mism:
@@ -273,5 +418,8 @@ def run(tier, seed, replay=None):
         "prefix, quoted, alias, redirect, unparseable, empty, blank, non-str JSON; MCP names; 15 hook_event_name values (other names, "
         "case / space variants, wrong JSON types); bypass modes, other tools, faults in match_after / tokenize / match_after_mcp / "
         "load_config, ASCII-only stdout, 200 kB commands and nesting 100000; every non-PostToolUse case is run a second time with the "
-        "after lines removed. distinct = distinct (stdin, configs, fault); non-trivial = the configuration contains an after rule")
+        "after lines removed; field placement (harness/hookplace.py): PostToolUse payloads of every host x every host field as a decoy "
+        "key (tool_input, deeper, tool_response, other object, array, nested copy, near-miss spellings, duplicate member) x top-level "
+        "state x forced mode, and hook_event_name decoys on pre-execution payloads - in-process with confirmation by real processes, "
+        "plus a covering sample as real processes. distinct = distinct (stdin, configs, fault); non-trivial = the configuration contains an after rule")
     return out
